@@ -775,6 +775,8 @@ class ShBinascii(types.ModuleType):
     def hexlify(data, *a):
         if _isinstance(data, (SymBytes, ShByteArray)):
             return b"<sym>"
+        if _isinstance(data, SymStr):
+            raise TypeError("a bytes-like object is required, not 'str'")          # what the real function says for text
         return _real_binascii.hexlify(data, *a)
 
     @staticmethod
